@@ -104,6 +104,19 @@ ADDED = {
     "C16": " Cycles that re-enter with looked-up or produced values need a shared work budget (fan-out rule). The nesting guard is checked against the grammar: every level-building token steps up, on every path through its arm, a variable that an uncapped comparison limits; prefix operators in front of a parenthesis, blanks between them and the precedence levels climbed on a level are accounted for. Cycles that walk looked-up collections or build text for the next round need budgets that grow with their size. Grammar lint: no repetition asks at every character a question that can scan the rest of the line. Where a round builds text, the bytes of the text of all rounds need a budget.",
     "C18": " The writers are analysed as a family with their local helpers; buffered writers need a checked flush. Also decided: the flash file is written for every successful build, the default paths are built without a text conversion, the two paths are compared before anything is written. The two output paths are compared by the place they lead to.",
 }
+# round 6 (DESIGN.md §9.12)
+ADDED6 = {
+    "C02": " The gap in front of a segment is filled only on paths where its fragment is known not to be empty (the passes' notions of 'occupies' agree); the splice decision reads the output's last segment in the round of the call.",
+    "C06": " A quoted text reaches the operand as written also through a macro body: outside the per-character argument walk the macro pipeline neither inspects nor rewrites the text of a stored body line.",
+    "C09": " Outside the argument walk the macro pipeline (builder::pass0) copies body lines whole (no search, split, trim, join or re-casing of text that comes from a stored line); the type compared in the splice decision is read inside every loop the comparison stands in.",
+    "C10": " A symbol map handed to a helper counts as accessed there for every field a caller hands over.",
+    "C13": " Every feature of the reference table that removes an instruction or form must have a flag in DisabledOptions.",
+    "C14": " The rule macro bodies are cut with (code_text) is matched against sample lines: a ; or // inside a quoted text or /* */ starts no comment.",
+    "C15": " An iterator consumer (try_for_each, collect into Result) hands on the errors of the closures of its chain; a call that is the function's value is an error exit like `?`.",
+    "C18": " Helpers of main may be closures or free functions of the tool's crate.",
+}
+for _pid, _txt in ADDED6.items():
+    ADDED[_pid] = ADDED.get(_pid, "") + _txt
 for _pid, _txt in ADDED.items():
     if P.get(_pid, {}).get("built"):
         P[_pid]["text"] += _txt
@@ -111,7 +124,7 @@ P["C01"]["note"] = "Trusted: rustc MIR, spec/avr_isa.json, E1 transfer functions
 
 ENGINES = [
     {"name": "E0 fact driver", "path": "driver/", "serves_properties": sorted(P), "kind_free_text": "rustc_private driver (RUSTC_WORKSPACE_WRAPPER) dumping callee-resolved MIR, ADT/static/impl tables of /repo's two crates as JSON"},
-    {"name": "E1 abstract interpreter", "path": "analysis/absint.py", "serves_properties": ["C01", "C02", "C03", "C04", "C05", "C06", "C08", "C12", "C13"], "kind_free_text": "path-sensitive abstract interpretation of MIR: named unknowns, value sets, bit provenance, linear forms; no solver, no execution of /repo"},
+    {"name": "E1 abstract interpreter", "path": "analysis/absint.py", "serves_properties": ["C01", "C02", "C03", "C04", "C05", "C06", "C08", "C12", "C13"], "kind_free_text": "path-sensitive abstract interpretation of MIR: named unknowns, value sets, bit provenance, linear forms, Option/Result adaptors and range predicates read as the comparisons they abbreviate; no solver, no execution of /repo"},
     {"name": "E2 PEG reader", "path": "analysis/peg.py", "serves_properties": ["C01", "C05", "C14", "C16"], "kind_free_text": "own reader for the rust-peg grammar in src/document.rs (rules, ordered choice, classes, repetition, precedence!), cross-checked per rule against the literals in the compiled parser's MIR"},
     {"name": "E4 lower-case typestate", "path": "analysis/norm.py", "serves_properties": ["C09", "C10", "C14"], "kind_free_text": "greatest-fixpoint, field-sensitive 'always lower-cased string' analysis over resolved MIR"},
     {"name": "E3 graphs", "path": "analysis/graph.py", "serves_properties": ["C15", "C16", "C17", "C18", "C11", "C09"], "kind_free_text": "call graph over resolved callees (virtual/default/fmt/vtable edges), CFG, dominators, reachability"},
